@@ -1,2 +1,2 @@
 import ScVerif.C15.Drv
-def main : IO Unit := ScVerif.Line.runDriver ScVerif.C15.handle
+def main : IO Unit := ScVerif.Line.runDriverS ([] : List String) ScVerif.C15.handleS
